@@ -461,17 +461,19 @@ impl Bucket {
     fn update_state(&mut self) {
         let now = time::Instant::now();
         // div safety: self.refill_period.as_millis() is checked to be non-null in constructor
-        let refill_periods = now.saturating_duration_since(self.last_fill).as_millis() as u32
-            / self.refill_period.as_millis() as u32;
+        // computed in u128: casting the elapsed milliseconds to u32 first would wrap after
+        // 49.7 days without a refill and under-fill the bucket.
+        let refill_periods = now.saturating_duration_since(self.last_fill).as_millis()
+            / self.refill_period.as_millis();
+        let refill_periods = u32::try_from(refill_periods).unwrap_or(u32::MAX);
         if refill_periods == 0 {
             // Nothing to do - we won't refill yet
             return;
         }
 
-        self.fill = self
-            .fill
-            .saturating_add(refill_periods as i64 * self.refill);
-        self.fill = std::cmp::min(self.fill, self.max);
+        // in i128: `refill_periods * refill` does not fit an i64 for extreme rates
+        let fill = self.fill as i128 + refill_periods as i128 * self.refill as i128;
+        self.fill = std::cmp::min(fill, self.max as i128) as i64;
         self.last_fill += self.refill_period * refill_periods;
     }
 
@@ -493,9 +495,9 @@ impl Bucket {
             return Ok(());
         }
 
-        let missing = self.fill.saturating_neg();
+        let missing = -(self.fill as i128);
 
-        let periods_needed = (missing / self.refill) + 1;
+        let periods_needed = (missing / self.refill as i128) + 1;
         let periods_needed = u32::try_from(periods_needed).unwrap_or(u32::MAX);
 
         Err(self.last_fill + periods_needed * self.refill_period)
